@@ -3,6 +3,7 @@ import FastgoModel.Writer.Replay
 import FastgoModel.Container.Members
 import FastgoModel.Reader.Replay
 import FastgoModel.Writer.Tokens
+import FastgoModel.Proofs.HuffInstance
 /-
   Line-protocol driver of the executable models (`lake build fgmodel`).
   One case per input line, one answer line per case. Bytes travel as lowercase hex.
@@ -89,6 +90,21 @@ def answerW (window maxTok : Nat) (fails : List Nat) (ops : List Writer.Op) (log
   let (w, lines) := go w0 ops []
   let bad := match w.dyn.mf.bad with | none => "-" | some m => m
   s!"{String.intercalate ";" lines} left={(takeChunks w.dyn.mf.log).2.length} bad={bad}"
+
+/-! ### H: the Huffman-only control model with a replayed block encoder -/
+
+def answerH (max : Nat) (fails : List Nat) (ops : List Writer.Op) (blocks : List (List Nat)) : String :=
+  let L := replayHuff blocks
+  let w0 : HState HLog := HState.init L { fail := fun k => fails.contains k }
+  let rec go (w : HState HLog) (ops : List Writer.Op) (acc : List String) : HState HLog × List String :=
+    match ops with
+    | [] => (w, acc.reverse)
+    | op :: rest =>
+      let (w1, r) := hStep L max w op
+      go w1 rest (s!"{r.n},{errStr r.err},{w1.huff.buf.length},{w1.dst.calls}" :: acc)
+  let (w, lines) := go w0 ops []
+  let bad := match w.huff.ls.bad with | none => "-" | some m => m
+  s!"{String.intercalate ";" lines} left={w.huff.ls.log.length} bad={bad}"
 
 /-! ### G: leaf-contract check of one recorded match-finder call -/
 
@@ -204,6 +220,11 @@ def step (line : String) : String :=
     let os := (ops.splitOn ",").filterMap parseOp
     let es := if evs = "-" then [] else (evs.splitOn ";").filterMap parseEv
     answerW (parseNat! window) (parseNat! maxTok) fl os es
+  | ["H", max, fails, ops, blocks] =>
+    let fl := if fails = "-" then [] else (fails.splitOn ",").map parseNat!
+    let os := (ops.splitOn ",").filterMap parseOp
+    let bs := if blocks = "-" then [] else (blocks.splitOn ";").map fun b => (b.splitOn ".").map parseNat!
+    answerH (parseNat! max) fl os bs
   | ["G", window, pos, stop, buf, toks] =>
     match parseHex buf with
     | some b =>
